@@ -646,6 +646,13 @@ def run(rep):
     rep.guarded("R-C18-uninit", lambda r: C18.rule_uninit(r, mir.mode_p(r.ctx.repo)))
     rep.floor("R-C18-uninit", 1)
     rep.clause("R-C18-uninit", "no rubato body obtains uninitialised or reinterpreted memory (set_len over spare capacity, MaybeUninit, raw allocation, transmute, from_raw_parts) - shared with C18")
+    import shares
+    shares.wrappers(rep, "a wrapper that sizes or indexes inconsistently panics or makes the core call fail")
+    shares.agree(rep, "a getter that disagrees with the validated minimum makes a correctly sized call fail or lets a short buffer through")
+    shares.step(rep, ASYNC, "the margin and provisioning arguments assume the position advances by the step once per frame")
+    shares.restore(rep, list(RESAMPLERS), "a reset that leaves position, fill level or saved frames inconsistent makes the next call index outside the buffers")
+    rep.floor("R-C10-restore", 51)
+    shares.conserve(rep, "a wrong saved-frame count turns into an out-of-range slice")
     import arith
     rep.guarded("R-C03-arith", arith.run)
     rep.floor("R-C03-arith", 60)     # 74 sites on the reviewed tree; a few may legitimately disappear (e.g. saturating_sub)
